@@ -119,8 +119,70 @@ fn run_storm(stim: &Value, rec: &Rec) {
     tonic::transport::verif_hooks::set_sink(None);
 }
 
+/// stim.addr_entry: the address entry point - `Router::serve_with_shutdown(addr, signal)` on a loopback TCP port, in real time - with one
+/// streaming call in flight when the signal fires (the other labs of this file use serve_with_incoming_shutdown over in-memory pipes)
+fn run_addr(_stim: &Value, rec: &Rec) {
+    let log = rec.clone();
+    let hook_log = rec.clone();
+    tonic::transport::verif_hooks::set_sink(Some(Box::new(move |ev, n| if !ev.starts_with("rc_") { hook_log.ev(json!({"e":"hook","ev":ev,"n":n})) })));
+    let addr = { let l = std::net::TcpListener::bind("127.0.0.1:0").expect("loopback port"); l.local_addr().unwrap() };
+    block_on(async move {
+        let mut items = HashMap::new(); items.insert(1u8, 1u64);
+        let h = Gated { gates: Arc::new(Mutex::new(HashMap::new())), items: Arc::new(items), log: log.clone() };
+        let (sig_tx, sig_rx) = tokio::sync::oneshot::channel::<()>();
+        let log_s = log.clone();
+        let svc = SvcServer::new(h.clone());
+        let fired = Arc::new(std::sync::atomic::AtomicBool::new(false));
+        let fired_s = fired.clone();
+        let serve = tokio::spawn(async move {
+            let sig = async move { if sig_rx.await.is_err() { std::future::pending::<()>().await } };
+            let r = tonic::transport::Server::builder().add_service(svc).serve_with_shutdown(addr, sig).await;
+            // (an error before the signal is the loopback port having been taken by somebody else meanwhile: not the server's doing)
+            if r.is_ok() || fired_s.load(std::sync::atomic::Ordering::SeqCst) { log_s.ev(json!({"e":"resolved","ok":r.is_ok()})); }
+        });
+        log.ev(json!({"e":"step","i":0,"op":"offer","c":1,"k":0,"nb":false,"hold":false}));
+        let mut ch = None;
+        for _ in 0..150 { match tonic::transport::Endpoint::from_shared(format!("http://{addr}")).unwrap().connect().await { Ok(c) => { ch = Some(c); break; } Err(_) => tokio::time::sleep(Duration::from_millis(20)).await } }
+        let Some(ch) = ch else { log.ev(json!({"e":"client_connect_err","c":1,"msg":"could not connect to the loopback port"})); log.ev(json!({"e":"epilogue"})); log.ev(json!({"e":"final","resolved":false})); return; };
+        log.ev(json!({"e":"taken","c":1}));
+        let mut cl = SvcClient::new(ch);
+        log.ev(json!({"e":"step","i":1,"op":"send","c":0,"k":1,"nb":false,"hold":false}));
+        let (first_tx, first_rx) = tokio::sync::oneshot::channel::<()>();
+        let log_c = log.clone();
+        let call = tokio::spawn(async move {
+            let mut first_tx = Some(first_tx);
+            match cl.sstream(Request::new(vec![1u8])).await {
+                Err(s) => log_c.ev(json!({"e":"call_done","k":1,"ok":false,"code":s.code() as i32,"msgs":[]})),
+                Ok(r) => { let mut st = r.into_inner(); let mut got = vec![];
+                    loop { match st.message().await {
+                        Ok(Some(m)) => { got.push(bytes_json(&m)); if let Some(t) = first_tx.take() { let _ = t.send(()); } }
+                        Ok(None) => { log_c.ev(json!({"e":"call_done","k":1,"ok":true,"code":0,"msgs":got})); break }
+                        Err(e) => { log_c.ev(json!({"e":"call_done","k":1,"ok":false,"code":e.code() as i32,"msgs":got})); break } } } }
+            }
+            drop(cl);
+        });
+        log.ev(json!({"e":"step","i":2,"op":"release","c":0,"k":1,"nb":false,"hold":false}));
+        h.gate(1).add_permits(1);
+        let _ = tokio::time::timeout(Duration::from_secs(5), first_rx).await;
+        log.ev(json!({"e":"step","i":3,"op":"fire","c":0,"k":0,"nb":false,"hold":false}));
+        fired.store(true, std::sync::atomic::Ordering::SeqCst);
+        let _ = sig_tx.send(());
+        tokio::time::sleep(Duration::from_millis(300)).await;
+        log.ev(json!({"e":"step","i":4,"op":"release","c":0,"k":1,"nb":false,"hold":false}));
+        h.gate(1).add_permits(1);
+        let _ = tokio::time::timeout(Duration::from_secs(5), call).await;
+        log.ev(json!({"e":"epilogue"}));
+        for _ in 0..250 { if serve.is_finished() { break; } tokio::time::sleep(Duration::from_millis(20)).await; }
+        tokio::time::sleep(Duration::from_millis(20)).await;
+        log.ev(json!({"e":"final","resolved":serve.is_finished()}));
+        serve.abort();
+    });
+    tonic::transport::verif_hooks::set_sink(None);
+}
+
 pub fn run(stim: &Value, rec: &Rec) {
     if stim["storm"].is_object() { return run_storm(stim, rec); }
+    if stim["addr_entry"].as_bool().unwrap_or(false) { return run_addr(stim, rec); }
     let log = rec.clone();
     let stim = stim.clone();
     let hook_log = rec.clone();
